@@ -335,8 +335,7 @@ def check_send_failure_not_fatal(facts, rep):
             key = "send-failure-not-fatal/%s" % b.path.split("::{")[0]
             # innermost loop header: dominates the call and is reachable from it
             pred = b.pred
-            heads = [h for h in range(len(b.blocks)) if h != cbi and b.dominates(h, cbi) and h in b.reachable_from(cbi)
-                     and any(b.dominates(h, p_) for p_ in pred[h])]         # natural-loop headers whose loop contains the call
+            heads = sorted(b.loop_headers_containing(cbi) - {cbi})         # natural-loop headers whose loop contains the call
             head = heads[0] if heads else None
             if head is None:
                 rep.ok(rid, key, where, "not inside a loop: nothing to tear down", nontrivial=False)
